@@ -429,6 +429,68 @@ def task_wide(t):
     return rep
 
 
+def task_chain(t):
+    """A DEEP operand: the conjunction of N variables (one node per level).  The pinned code
+    recurses once per level in ite/apply and handles about 980 levels under the default
+    recursion limit; N = 400 must work (it fails only if the recursion needs more than about
+    2.4 Python frames per level).  Results are evaluated by walking single assignments."""
+    _, N, _f = t
+    rep = run.Report()
+    rec = _Rec(rep)
+    case = dict(kind='chain', task=t, levels=N)
+    try:
+        m = S.new_bdd({'v%d' % i: i for i in range(N)})
+        c = 1
+        for i in reversed(range(N)):
+            c = m.find_or_add(i, -1, c)
+        m.incref(c)
+
+        def value(u, falses):
+            """Value of u when every variable is true except those at the levels in `falses`."""
+            neg = False
+            while abs(u) != 1:
+                if u < 0:
+                    neg = not neg
+                i, lo, hi = m._succ[abs(u)]
+                u = lo if i in falses else hi
+            return (u == 1) != neg
+        probes = [set(), {0}, {N - 1}, {N // 2}, {0, N - 1}, {1}]
+        x0, xl, xm = m.var('v0'), m.var('v%d' % (N - 1)), m.var('v%d' % (N // 2))
+        cases = [
+            ('and', lambda: m.apply('and', c, xl), lambda F: not F),
+            ('and-mid', lambda: m.apply('/\\', xm, c), lambda F: not F),
+            ('or', lambda: m.apply('or', c, -x0), lambda F: (not F) or (0 in F)),
+            ('xor', lambda: m.apply('xor', c, x0), lambda F: (not F) != (0 not in F)),
+            ('implies', lambda: m.apply('=>', c, xl), lambda F: bool(F) or (N - 1 not in F)),
+            ('equiv', lambda: m.apply('<=>', c, c), lambda F: True),
+            ('diff', lambda: m.apply('diff', xm, c), lambda F: (N // 2 not in F) and bool(F)),
+            ('ite', lambda: m.ite(c, x0, -xl), lambda F: (0 not in F) if not F else (N - 1 in F)),
+            ('not', lambda: m.apply('not', c), lambda F: bool(F)),
+        ]
+        for name, call, want in cases:
+            rep.add('evaluations')
+            rep.add('nontrivial')
+            try:
+                r = call()
+            except RecursionError as e:
+                rec('chain-recursion:' + name, '%s on an operand %d levels deep raised '
+                    'RecursionError (the pinned code handles about 980 levels)' % (name, N), case)
+                continue
+            for F in probes:
+                if value(r, F) != bool(want(F)):
+                    rec('chain:' + name, '%s is wrong on a deep operand' % name,
+                        dict(case, op=name, falses=sorted(F)))
+                    break
+        if m.apply('and', c, xl) != c:
+            rec('chain-canonical', 'c /\\ (its last variable) is not c itself', case)
+    except Violation as e:
+        rec('chain-broken:' + e.what, e.what, case, **e.detail)
+    except Exception as e:  # noqa
+        rec('chain-exception:' + type(e).__name__, 'raised %r' % (e,), case)
+    rep.sample(dict(kind='deep chain', levels=N))
+    return rep
+
+
 def task_reorder(t):
     """Connectives and ite while DYNAMIC REORDERING fires inside the call: a request forced at
     the k-th node creation, the reordering ending in a chosen order (the permutations of the
@@ -504,7 +566,7 @@ def task_reorder(t):
 
 
 TASKS = dict(pairs=task_pairs, ite=task_ite, sparse=task_sparse, autoref=task_autoref,
-             reorder=task_reorder,
+             reorder=task_reorder, chain=task_chain,
              n4=task_n4, wide=task_wide, xwide=task_wide)
 
 
@@ -516,6 +578,7 @@ def plan(tier):
     ts = [('wide', si, 16, None) for si in range(16)]
     ts += [('xwide', si, 16, None) for si in range(16)]
     ts += [('reorder', k, si, 8, None) for k in (1, 2) for si in range(8)]
+    ts += [('chain', 400, None)]
     n = 3
     no = 6
     if tier == 'quick':
@@ -640,7 +703,7 @@ def _rerun_task(case):
         t = ('autoref', case['n'], case['order'], 0, 1)
     elif kind == 'n4':
         t = ('n4', case['order'], 0, 1)
-    elif kind in ('wide', 'reorder'):
+    elif kind in ('wide', 'reorder', 'chain'):
         t = sweep._tuplify(case['task'])
     else:
         return None
